@@ -21,7 +21,7 @@ from fractions import Fraction as Fr
 from svx.contract import and_, ite_, not_, or_, sin_, unit
 
 from .c_filter_rk import filter_spec
-from .spec import AXES, AX, COMP, cdiff, curl2_inplane, curl2_outplane, curl3, eno3_flux_divergence, lap, sh
+from .spec import AXES, AX, COMP, cdiff, curl2_inplane, curl2_outplane, curl3, div3, eno3_flux_divergence, lap, sh
 
 FLOW_MODS = ["sopht.simulator.flow.flow_simulators", "sopht.simulator.flow.navier_stokes_flow_simulators",
              "sopht.simulator.flow.passive_transport_flow_simulators"]
@@ -553,3 +553,58 @@ def init_domain_coordinates(K, dim):
     for d in range(dim):  # component d: x=0 varies along the last array axis
         K.ensures_eq(f"component_{d}_is_cell_centre_coordinate_of_axis_{'xyz'[d]}", at((d,) + tuple(c)),
                      (c[dim - 1 - d] + Fr(1, 2)) * dx)
+
+
+# =============================================================================================
+# C12: the simulator's own divergence monitor (get_vorticity_divergence_l2_norm)
+# =============================================================================================
+@unit("vorticity_divergence_monitor_3d", props=("C12",), kernels=True,
+      configs=[dict(after_step=False)],
+      assumes=("np.linalg.norm by contract: a non-negative real that is a function of its argument's content at the call",))
+def vorticity_divergence_monitor_3d(K, after_step):
+    """get_vorticity_divergence_l2_norm(): the monitored field is the library's centred divergence of the CURRENT
+    vorticity (zero on the boundary ring), whatever the scratch buffer held before; the result is its l2 norm
+    times dx^(3/2); the public state is not modified."""
+    sym = K.mode == "sym"
+    shape = tuple(K.ext(n, lo=9) for n in ("nz", "ny", "nx"))
+    nz, ny, nx = shape
+    L, nu = K.real("x_range", pos=True), K.real("nu", pos=True)
+    with sim_context(K):
+        sim = build_simulator(K, "sopht.simulator.flow.navier_stokes_flow_simulators:UnboundedNavierStokesFlowSimulator3D", shape,
+                              dict(x_range=L, kinematic_viscosity=nu, with_forcing=True))
+        dx = L / nx
+        if after_step:  # call history: a step has used (and dirtied) every scratch buffer before
+            set_state(K, sim.vorticity_field, "vorticity_before")
+            set_state(K, sim.velocity_field, "velocity_before")
+            set_state(K, sim.eul_grid_forcing_field, "forcing_before")
+            dt = K.real("dt", pos=True)
+            sim.time_step(dt * 0.01 * L / nx if not sym else dt)
+        w0 = set_state(K, sim.vorticity_field, "vorticity0")
+        u0 = set_state(K, sim.velocity_field, "velocity0")
+        scratch(K, sim.buffer_vector_field)
+        if sym:
+            from svx import symnp
+            del symnp.NORM_LOG[:]
+        res = sim.get_vorticity_divergence_l2_norm()
+    c = K.cell(shape)
+    comp = lambda i: (lambda cc: w0((i,) + tuple(cc)))
+    K.ensures_eq("monitored_field_is_library_divergence_of_current_vorticity[interior]",
+                 K.value(sim.buffer_scalar_field, c), Fr(1, 2) / dx * div3(comp(0), comp(1), comp(2), c),
+                 when=K.interior(c, shape, 1))
+    K.ensures_eq("monitored_field_is_zero_on_boundary_ring", K.value(sim.buffer_scalar_field, c), 0,
+                 when=not_(K.interior(c, shape, 1)))
+    for i in range(3):
+        K.ensures_eq(f"vorticity_not_modified[{i}]", K.value(sim.vorticity_field, (i,) + c), w0((i,) + c))
+        K.ensures_eq(f"velocity_not_modified[{i}]", K.value(sim.velocity_field, (i,) + c), u0((i,) + c))
+    if sym:
+        from svx import symnp
+        K.ensures("one_norm_of_the_monitored_field",
+                  len(symnp.NORM_LOG) == 1 and getattr(symnp.NORM_LOG[0][1], "buf", None) is sim.buffer_scalar_field.buf
+                  and tuple(S_(n).key() for n in symnp.NORM_LOG[0][1].shape) == tuple(S_(n).key() for n in shape)
+                  and symnp.NORM_LOG[0][2] == len(sim.buffer_scalar_field.buf.log))
+        if symnp.NORM_LOG:
+            K.ensures_eq("result_is_l2_norm_times_dx_to_the_three_halves", res, symnp.NORM_LOG[0][0] * dx * S_(dx).sqrt())
+    else:
+        import numpy as np
+        K.ensures_eq("result_is_l2_norm_times_dx_to_the_three_halves", res,
+                     float(np.linalg.norm(sim.buffer_scalar_field)) * float(dx) ** 1.5)
